@@ -43,6 +43,7 @@ func propC12(w *World, r *Report) {
 	RunExtremumInit(w, r, losslessFuncs(w, r, "C12"))
 	r.Floor("extremuminit", 3)
 	RunBBoxRound(w, r, w.LibFuncs())
+	RunExtentPairs(w, r)
 	RunExtremumLocal(w, r, w.LibFuncs())
 	r.Floor("extremumlocal", 6)
 	RunControl(r, "extremumlocal", "ctlExtremumLocalBad", RunExtremumLocal)
